@@ -191,3 +191,74 @@ pub fn extremes(rng: &mut Rng, scale: usize) -> Vec<(&'static str, String)> {
         }),
     ]
 }
+
+/// Valid programs with odd *semantics*: a wild program (or a hand-written call-graph shape) with a
+/// few instruction-level mutations that keep it parseable but break every assumption a dataflow
+/// analysis may silently rely on - branches and jumps retargeted to arbitrary labels, returns turned
+/// into jumps and the reverse, the stack pointer reloaded from memory / copied to and from a frame
+/// pointer / moved inside loops, narrow stores through such a stack pointer, calls into the middle of
+/// functions, and labels that carry names the analyzer uses internally.
+pub fn semantic_mutant(rng: &mut Rng) -> crate::ast::Program {
+    use crate::ast::{AluOp, Cond, Ins, Line, LoadW, StoreW, SP};
+    let mut p = match rng.below(5) {
+        0 => {
+            let s = crate::shapes::call_graph_shapes(rng);
+            let i = rng.below(s.len());
+            s[i].prog.clone()
+        }
+        1 => crate::shapes::shared_tail_family(rng).prog,
+        2 => crate::shapes::trap_handler_family(rng).prog,
+        _ => gen::generate(rng, &Profile::wild_static(), None).prog,
+    };
+    let labels: Vec<String> = p.lines.iter().filter_map(|l| if let Line::Label(s) = l { Some(s.clone()) } else { None }).collect();
+    if labels.is_empty() {
+        return p;
+    }
+    let n_mut = 1 + rng.below(5);
+    for _ in 0..n_mut {
+        let ins_at: Vec<usize> = p.lines.iter().enumerate().filter(|(_, l)| matches!(l, Line::Ins(_))).map(|(i, _)| i).collect();
+        if ins_at.is_empty() {
+            break;
+        }
+        let at = ins_at[rng.below(ins_at.len())];
+        let lab = labels[rng.below(labels.len())].clone();
+        let fp = *rng.pick(&[8u8, 9, 5, 10]);
+        let off = *rng.pick(&[-16, -8, -4, -3, -1, 0, 1, 4, 8, 12]);
+        match rng.below(12) {
+            0 => {
+                // retarget a branch / jump / call
+                if let Line::Ins(i) = &p.lines[at] {
+                    p.lines[at] = Line::Ins(i.map_label(&|_| lab.clone()));
+                }
+            }
+            1 => p.lines[at] = Line::Ins(Ins::Load { w: LoadW::W, rd: SP, off, base: SP }),
+            2 => p.lines[at] = Line::Ins(Ins::AluI { op: AluOp::Add, rd: fp, rs1: SP, imm: *rng.pick(&[0, 16, -16]) }),
+            3 => p.lines[at] = Line::Ins(Ins::AluI { op: AluOp::Add, rd: SP, rs1: fp, imm: *rng.pick(&[0, 16, -16]) }),
+            4 => p.lines[at] = Line::Ins(Ins::Store { w: *rng.pick(&[StoreW::B, StoreW::H, StoreW::W]), rs2: *rng.pick(&[0u8, fp, SP, 6]), off, base: SP }),
+            5 => p.lines[at] = Line::Ins(Ins::Load { w: LoadW::W, rd: *rng.pick(&[fp, 6, 1]), off, base: SP }),
+            6 => {
+                // a return becomes a jump, anything else becomes a return
+                let is_ret = matches!(&p.lines[at], Line::Ins(i) if i.is_ret());
+                p.lines[at] = Line::Ins(if is_ret { Ins::j(&lab) } else { Ins::ret() });
+            }
+            7 => p.lines.insert(at, Line::Ins(Ins::Branch { c: *rng.pick(&[Cond::Eq, Cond::Ne, Cond::Lt, Cond::Geu]), rs1: 10, rs2: *rng.pick(&[0u8, 11]), label: lab })),
+            8 => p.lines.insert(at, Line::Ins(Ins::call(&lab))),
+            9 => p.lines.insert(at, Line::Ins(Ins::AluI { op: AluOp::Add, rd: SP, rs1: SP, imm: *rng.pick(&[-16, 16, 4, -4]) })),
+            10 => {
+                // a label gets a name the analyzer uses itself (or that looks like something else)
+                let new = *rng.pick(&["__return__", "__return__", "return", "main", "_start", "ra_", "L0"]);
+                if !labels.iter().any(|l| l == new) {
+                    for l in p.lines.iter_mut() {
+                        match l {
+                            Line::Label(s) if *s == lab => *s = new.to_string(),
+                            Line::Ins(i) => *i = i.map_label(&|x| if x == lab { new.to_string() } else { x.to_string() }),
+                            _ => {}
+                        }
+                    }
+                }
+            }
+            _ => p.lines[at] = Line::Ins(Ins::j(&lab)),
+        }
+    }
+    p
+}
